@@ -104,7 +104,7 @@ fn shapes() -> Vec<Shape> {
     for c in product(&[bools(), bools(), ints(IntTy::I32, &[0, 1])]) {
         s_vals.push(Expr::StructLit { name: "S".into(), ty: s_ty.clone(), fields: vec![("f".into(), c[0].clone()), ("g".into(), c[1].clone()), ("h".into(), c[2].clone())] });
     }
-    let strs: Vec<Expr> = ["", "a", "b", "ab"].iter().map(|s| Expr::Str(s.to_string())).collect();
+    let strs: Vec<Expr> = ["", "a", "b", "ab", "a\tb", "q\"\\"].iter().map(|s| Expr::Str(s.to_string())).collect();
     vec![
         Shape { name: "bool", ty: Ty::Bool, values: bools(), has_int: false },
         Shape { name: "unit", ty: Ty::Unit, values: vec![Expr::Unit], has_int: false },
@@ -137,7 +137,8 @@ fn pats(ty: &Ty, d: u32, g: &Gen) -> Vec<Pat> {
                 out.push(Pat::Int(*t, v, *t != IntTy::I32));
             }
         }
-        Ty::Str => out.extend([Pat::Str("".into()), Pat::Str("a".into()), Pat::Str("b".into())]),
+        // (two spellings need escapes: a TAB, and a quote followed by a backslash)
+        Ty::Str => out.extend([Pat::Str("".into()), Pat::Str("a".into()), Pat::Str("b".into()), Pat::Str("a\tb".into()), Pat::Str("q\"\\".into())]),
         Ty::Tuple(ts) if d > 0 => {
             let parts: Vec<Vec<Pat>> = ts.iter().map(|t| pats(t, d - 1, g)).collect();
             let mut combos: Vec<Vec<Pat>> = vec![vec![]];
